@@ -80,6 +80,12 @@ def copy_origin(e, body, unit, depth=0):
         return copy_origin(member_call_object(e), body, unit, depth + 1)
     if k == 'ArraySubscriptExpr':
         return copy_origin(e['inner'][0], body, unit, depth + 1)
+    if k in ('CXXMemberCallExpr', 'CallExpr'):
+        # a container handed back BY VALUE by one of the class's own functions is a temporary copy
+        d = callee_decl(e, unit)
+        rt = ((d or {}).get('type', {}).get('qualType') or '').split('(')[0].strip()
+        if d is not None and rt and not rt.endswith(('&', '*')) and any(w_ in rt for w_ in ('vector', 'deque', 'list', 'map', 'ArgText')) and 'phosg' in (unit.qualname(d) or ''):
+            return e
     return None
 
 def run(ctx):
